@@ -331,8 +331,281 @@ def _list_getitem(interp, obj, k):
     raise Unmodelled("symbolic in-range list index")
 
 
+# --------------------------------------------------------------------------------------
+# instruction decoding: Contract.__getitem__, unwrapped_slice, slice, _decode_instruction
+# (ghost code: the concrete prefix `_fastcode` as python bytes with python's clamping slice semantics,
+#  `_code` as the flat zero-extended byte array of the C07 contract)
+
+
+def byteval(k):
+    """byte k of the code as the flat array sees it: 0 beyond the end"""
+    return z3.If(z3.And(k >= 0, k < NC), CODE(k), 0)
+
+
+def be_value(start, n):
+    return z3.Sum([byteval(start + i) * (1 << (8 * (n - 1 - i))) for i in range(n)]) if n else z3.IntVal(0)
+
+
+def _const_int(interp, e):
+    e = z3.simplify(e)
+    if z3.is_int_value(e):
+        return e.as_long()
+    return None
+
+
+class GhostFast(GhostBytes):
+    """python `bytes`: indexing raises IndexError out of range, slicing clamps to the length"""
+
+    known = None  # (z3 index expr, concrete opcode) for the position whose byte is fixed by the case
+
+
+def _ghost_fast_getitem(interp, obj, k):
+    from pyvc.interp import SymBytes
+    from pyvc.sym import Unmodelled
+
+    ctx = interp.ctx
+    n = iexpr(obj.n)
+    if isinstance(k, slice):
+        if k.step is not None or k.start is None or k.stop is None:
+            raise Unmodelled("slice form")
+        s, e = iexpr(k.start), iexpr(k.stop)
+        if not interp.truth(SymBool(z3.And(s >= 0, e >= s))):
+            raise Unmodelled("slice with negative or reversed bounds")
+        if interp.truth(SymBool(e <= n)):
+            ln = _const_int(interp, e - s)
+        elif interp.truth(SymBool(s >= n)):
+            return b""
+        else:  # the slice runs over the end of the bytes object: python silently clamps it
+            width = _const_int(interp, e - s)
+            if width is None:
+                raise Unmodelled("slice of symbolic width")
+            ln = 1 + ctx.choose(width - 1, "clamped-length") if width > 1 else 0
+            ctx.assume_checked(n - s == ln)
+        if ln is None:
+            raise Unmodelled("slice of symbolic width")
+        if ln == 0:
+            return b""
+        for i in range(ln):
+            ctx.assume(z3.And(CODE(s + i) >= 0, CODE(s + i) <= 255))
+        return SymBytes(ln, SymInt(z3.Sum([CODE(s + i) * (1 << (8 * (ln - 1 - i))) for i in range(ln)])))
+    ki = iexpr(k)
+    if not interp.truth(SymBool(z3.And(ki >= 0, ki < n))):
+        if interp.truth(SymBool(ki < 0)):
+            raise Unmodelled("negative index into the concrete prefix")
+        raise IndexError("index out of range")
+    if obj.known is not None and z3.eq(z3.simplify(ki), z3.simplify(obj.known[0])) and obj.known[1] is not None:
+        return obj.known[1]
+    ctx.assume(z3.And(CODE(ki) >= 0, CODE(ki) <= 255))
+    return SymInt(CODE(ki))
+
+
+class GhostCode(GhostBytes):
+    """the ByteVec `_code` through its C07 contract: get_byte / slice(...).unwrap() / len"""
+
+    ghost_of = ByteVec
+    known = None
+    log = None
+
+    def get_byte(self, k):
+        from pyvc.interp import Interp
+
+        interp = Interp.current
+        ctx = interp.ctx
+        ki = iexpr(k)
+        self.log.append(("get_byte", k))
+        if not interp.truth(SymBool(ki < iexpr(self.n))):
+            return 0
+        if self.known is not None and z3.eq(z3.simplify(ki), z3.simplify(self.known[0])) and self.known[1] is not None:
+            return self.known[1]
+        if self.all_int or interp.truth(SymBool(ISINT(ki))):
+            ctx.assume(z3.And(CODE(ki) >= 0, CODE(ki) <= 255))
+            return SymInt(CODE(ki))
+        return z3.BitVec(ctx.fresh("symbolic_byte"), 8)
+
+    def slice(self, start, stop):
+        self.log.append(("slice", start, stop))
+        return GhostCodeSlice(self, start, stop)
+
+
+class GhostCodeSlice:
+    ghost_of = ByteVec
+
+    def __init__(self, code, start, stop):
+        self.code, self.start, self.stop = code, start, stop
+        self.term = None
+
+    def unwrap(self):
+        from pyvc.interp import Interp, SymBytes
+        from pyvc.sym import Unmodelled
+
+        interp = Interp.current
+        ctx = interp.ctx
+        s = iexpr(self.start)
+        n = _const_int(interp, iexpr(self.stop) - s)
+        if n is None:
+            raise Unmodelled("unwrap of a code slice of symbolic width")
+        if n == 0:
+            return b""
+        all_concrete = self.code.all_int or ctx.choose(2, "window-concrete") == 0
+        if all_concrete:
+            if not self.code.all_int:
+                ctx.assume_checked(z3.And(*[z3.Or(s + i >= NC, ISINT(s + i)) for i in range(n)]))
+            for i in range(n):
+                ctx.assume(z3.And(CODE(s + i) >= 0, CODE(s + i) <= 255))
+            return SymBytes(n, SymInt(be_value(s, n)))
+        t = z3.BitVec(ctx.fresh(f"code_window_{n}"), 8 * n)
+        self.term = t
+        for i in range(n):
+            ctx.assume(z3.And(CODE(s + i) >= 0, CODE(s + i) <= 255))
+            ctx.assume(z3.Implies(z3.Or(s + i >= NC, ISINT(s + i)), z3.Extract(8 * (n - 1 - i) + 7, 8 * (n - 1 - i), t) == z3.Int2BV(byteval(s + i), 8)))
+        return t
+
+
+DECODE_EXTERNALS = {("len", GhostFast): _ghost_len, ("getitem", GhostFast): _ghost_fast_getitem, ("len", GhostCode): _ghost_len}
+
+
+def mk_decode_contract(ctx, shape):
+    c = object.__new__(hc.Contract)
+    c._jumpdests = None
+    c.contract_name = c.filename = c.source_map = None
+    ctx.assume(NC > 0)
+    log = []
+    if shape == "concrete prefix, all concrete":
+        ctx.assume(z3.And(NF > 0, NF <= NC))
+        c._fastcode = GhostFast(SymInt(NF), True, "fast")
+        c._code = GhostCode(SymInt(NC), True, "code")
+    elif shape == "concrete prefix, symbolic bytes after it":
+        ctx.assume(z3.And(NF > 0, NF <= NC))
+        c._fastcode = GhostFast(SymInt(NF), True, "fast")
+        c._code = GhostCode(SymInt(NC), False, "code")
+        k = z3.Int("k")
+        ctx.assume(z3.ForAll([k], z3.Implies(z3.And(k >= 0, k < NF), ISINT(k))))
+    elif shape == "no concrete prefix":
+        c._fastcode = None
+        c._code = GhostCode(SymInt(NC), False, "code")
+    else:
+        raise ValueError(shape)
+    c._code.log = log
+    return c, log
+
+
+DECODE_SHAPES = ("concrete prefix, all concrete", "concrete prefix, symbolic bytes after it", "no concrete prefix")
+
+
+def decode_cases():
+    from contracts.c06 import den_int, den_word
+
+    out = []
+    DEC = hc.Contract.__dict__["_decode_instruction"]
+    for shape in DECODE_SHAPES:
+        for n in range(0, 33):
+
+            def harness(interp, shape=shape, n=n):
+                ctx = interp.ctx
+                c, log = mk_decode_contract(ctx, shape)
+                pc = SymInt(z3.Int("pc"))
+                ctx.assume(z3.And(pc.e >= 0, pc.e < NC, ISINT(pc.e)))
+                if n:
+                    op = 0x5F + n
+                    ctx.assume(CODE(pc.e) == op)
+                    known = (pc.e, op)
+                else:
+                    op = None
+                    ctx.assume(z3.And(CODE(pc.e) >= 0, CODE(pc.e) <= 255, z3.Not(z3.And(CODE(pc.e) >= 0x60, CODE(pc.e) <= 0x7F))))
+                    known = None
+                if c._fastcode is not None:
+                    c._fastcode.known = known
+                c._code.known = known
+                try:
+                    insn = interp.call(DEC, [c, pc], {})
+                except (PathEnd,):
+                    raise
+                except BaseException as e:  # noqa
+                    from pyvc.interp import _ENGINE
+
+                    if isinstance(e, _ENGINE):
+                        raise
+                    ctx.oblige(f"no-exception[{type(e).__name__}]", z3.BoolVal(False), info={"msg": str(e)[:200]})
+                    return
+                opv = insn.opcode
+                ctx.oblige("decoded opcode is the code byte at pc", (iexpr(opv) == CODE(pc.e)) if not isinstance(opv, int) or n == 0 else z3.BoolVal(opv == op))
+                ctx.oblige("decoded pc and next pc: pc' = pc + 1 + number of operand bytes", z3.And(iexpr(insn.pc) == pc.e, iexpr(insn.next_pc) == pc.e + 1 + n))
+                if n == 0:
+                    ctx.oblige("an instruction other than PUSH1..PUSH32 has no operand", z3.BoolVal(insn.operand is None))
+                    return
+                r = insn.operand
+                ok_shape = type(r).__name__ == "HalmosBitVec" and r.size == 256
+                ctx.oblige("PUSH operand is a 256-bit word", z3.BoolVal(ok_shape))
+                if not ok_shape:
+                    return
+                iv = den_int(r)
+                if iv is not None:
+                    ctx.oblige(f"PUSH{n} operand = the {n} code bytes after the opcode, big-endian, zero beyond the end of the code", iv == be_value(pc.e + 1, n))
+                else:
+                    t = den_word(r)
+                    ctx.oblige(f"PUSH{n} operand: high {256 - 8 * n} bits are zero", z3.Extract(255, 8 * n, t) == 0 if n < 32 else z3.BoolVal(True))
+                    s0 = pc.e + 1
+                    ctx.oblige(f"PUSH{n} operand: every concrete code byte (and the zero padding beyond the end) appears at its big-endian position", z3.And(*[z3.Implies(z3.Or(s0 + i >= NC, ISINT(s0 + i)), z3.Extract(8 * (n - 1 - i) + 7, 8 * (n - 1 - i), t) == z3.Int2BV(byteval(s0 + i), 8)) for i in range(n)]))
+
+            out.append(Case(f"{PROP}/contract.Contract._decode_instruction", f"{shape}; " + (f"PUSH{n}" if n else "other opcode"), harness, externals=DECODE_EXTERNALS, replay=replay_decode, sources=("halmos.contract:Contract._decode_instruction", "halmos.contract:Contract.unwrapped_slice", "halmos.contract:Contract.__getitem__", "halmos.contract:insn_len")))
+
+    # Contract.__getitem__: fast and slow path agree with the flat array
+    for shape in DECODE_SHAPES:
+
+        def harness_getitem(interp, shape=shape):
+            ctx = interp.ctx
+            c, log = mk_decode_contract(ctx, shape)
+            k = SymInt(z3.Int("k"))
+            ctx.assume(z3.And(k.e >= 0, z3.Or(k.e >= NC, ISINT(k.e))))
+            r = interp.call(hc.Contract.__dict__["__getitem__"], [c, k], {})
+            ctx.oblige("code[k] is byte k of the flat code array (0 beyond the end)", iexpr(r) == byteval(k.e) if not z3.is_expr(r) or z3.is_int(r) else z3.BoolVal(False))
+
+        out.append(Case(f"{PROP}/contract.Contract.__getitem__", shape, harness_getitem, externals=DECODE_EXTERNALS, sources=("halmos.contract:Contract.__getitem__",)))
+
+    # Contract.slice (CODECOPY): bytes [start, start+size) of the flat array
+    for shape in DECODE_SHAPES[:2]:
+        for size in (1, 4, 32):
+
+            def harness_slice(interp, shape=shape, size=size):
+                from halmos.exceptions import OutOfGasError
+
+                ctx = interp.ctx
+                c, log = mk_decode_contract(ctx, shape)
+                start = SymInt(z3.Int("start"))
+                ctx.assume(start.e >= 0)
+                r = interp.call(hc.Contract.__dict__["slice"], [c, start, size], {})
+                if isinstance(r, GhostCodeSlice):
+                    ctx.oblige("slice (slow path) is the window [start, start+size) of the byte sequence", z3.And(iexpr(r.start) == start.e, iexpr(r.stop) == start.e + size))
+                else:
+                    ok = isinstance(r, ByteVec) and len(r) == size and len(r.chunks) == 1
+                    ctx.oblige("slice (fast path) has exactly `size` bytes", z3.BoolVal(ok), info={"len": len(r) if isinstance(r, ByteVec) else -1})
+                    if ok:
+                        data = r.chunks.values()[0].data
+                        from pyvc.interp import SymBytes
+
+                        ctx.oblige("slice (fast path) holds the code bytes [start, start+size)", (data.sym.e if hasattr(data.sym, "e") else iexpr(data.sym)) == be_value(start.e, size) if type(data) is SymBytes else z3.BoolVal(False))
+
+            out.append(Case(f"{PROP}/contract.Contract.slice", f"{shape}; size {size}", harness_slice, externals=DECODE_EXTERNALS, replay=replay_decode, sources=("halmos.contract:Contract.slice",)))
+    return out
+
+
+_REPLAY_DECODE = None
+
+
+def replay_decode(r):
+    """natively: the bounded decode stand-in searches a failing byte string for the real Contract"""
+    global _REPLAY_DECODE
+    if _REPLAY_DECODE is None:
+        _REPLAY_DECODE = _bounded_decode("quick", 0)
+    res = _REPLAY_DECODE
+    if res["failures"]:
+        f = res["failures"][0]
+        return {"reproduced": True, "detail": f"{f.get('detail', '')} [{f.get('witness', '')}]"[:600], "inputs": str(f.get("witness", ""))[:200]}
+    return {"reproduced": False, "detail": f"real Contract decodes all {res['cases']} enumerated byte strings like the reference"}
+
+
 def build_cases(tier="quick"):
-    return insn_len_cases() + jumpdest_cases() + valid_jumpdests_cases() + decode_past_end_cases() + jump_check_cases()
+    return insn_len_cases() + jumpdest_cases() + valid_jumpdests_cases() + decode_past_end_cases() + decode_cases() + jump_check_cases()
 
 
 # --------------------------------------------------------------------------------------
@@ -545,6 +818,6 @@ ASSUMPTIONS = [
     "Contract invariant `_fastcode` = concrete first chunk of `_code` is assumed in the scan proof (established by Contract.__init__, exercised only by the bounded stand-in)",
     "with symbolic bytes in the code only soundness (jumpdests subset of D_J under every valuation) is proved; completeness is proved for fully concrete code",
     "D_J is an uninterpreted predicate constrained by its Yellow-Paper defining equation at the positions the proof visits; termination of the scan is shown by the variant obligation pc' > pc",
-    "PUSH operand extraction and slices are covered by the bounded stand-in only (labelled bounded, never counted as proved); the jump checks of sevm.py (JUMP arm, concrete JUMPI arm, SEVM.jumpi) are proved against an arbitrary valid-destination set, with Exec.check / create_branch / Exec.advance used through their contracts",
+    "PUSH operand extraction, byte reads and slices are proved on ghost code (python bytes with clamping slices for the concrete prefix, the flat zero-extended array of the C07 contract for the byte sequence; unwrap of a window returns bytes when every byte in it is concrete, else a term constrained bytewise) for every PUSH width and arbitrary pc / code length; the decode cache of decode_instruction (a python list) is not under contract; the jump checks of sevm.py (JUMP arm, concrete JUMPI arm, SEVM.jumpi) are proved against an arbitrary valid-destination set, with Exec.check / create_branch / Exec.advance used through their contracts",
 ]
 TRUSTED = ["pyvc (this repository's verifier)", "z3 4.12.6 SMT semantics (LIA + UF + arrays)", "specs/dj.py (Yellow Paper 9.4.3 transcription)"]
